@@ -6,6 +6,7 @@ followed.  Selected pure callees are *summarised*: explored once under an empty
 path condition and merged into an if-then-else value (state merging), which is
 what keeps groups of k leaves from costing (paths per leaf)^k.
 """
+import os
 import re
 import struct
 import sys
@@ -112,6 +113,8 @@ class Run:
         self.alts = []
         self.events = []
         self.known = {}
+        # the keys of `known` are z3 AST ids; z3 recycles the id of a freed term, so every key term is kept alive here
+        self.keep = []
         self.blocks = set()
         self.assumed = False
 
@@ -314,6 +317,7 @@ class Engine:
             return self.run.known[key]
         k = self.decide([c, z3.Not(c)])
         self.run.known[key] = (k == 0)
+        self.run.keep.append(c)
         return k == 0
 
     def concretize(self, bv, candidates=None, what='value'):
@@ -334,6 +338,7 @@ class Engine:
         if k == len(candidates):
             raise Unsupported('%s outside the enumerated candidates' % what)
         self.run.known[key] = candidates[k]
+        self.run.keep.append(t)
         return candidates[k]
 
     # ------------------------------------------------------------------
@@ -956,6 +961,7 @@ class Engine:
                 if len(by_bb[bb]) == 1:
                     # remember: a later discriminant() of the same term is concrete
                     self.run.known[('disc', v.v.get_id())] = norm_int(by_bb[bb][0], v.ty)
+                    self.run.keep.append(v.v)
                 return bb
             return otherwise
         raise Unsupported('switchInt on %r' % (v,))
@@ -1083,6 +1089,53 @@ class Engine:
             self.uni.memo.setdefault(('keepalive',), []).append(args)
         else:
             self.uni.stats['summary_hits'] += 1
+            if os.environ.get('VERIF_DEBUG_SUMMARY'):
+                fresh = self.explore(fn, args)
+                a = sorted((r.kind, str(r.value), len(r.pc)) for r in summ)
+                b = sorted((r.kind, str(r.value), len(r.pc)) for r in fresh)
+                eq = z3.Solver()
+                for ax in self.uni.axioms:
+                    eq.add(ax)
+                va = merge_values([(r.cond(), r.value) for r in summ if r.kind == 'return']) if any(r.kind == 'return' for r in summ) else None
+                vb = merge_values([(r.cond(), r.value) for r in fresh if r.kind == 'return']) if any(r.kind == 'return' for r in fresh) else None
+                diff = None
+                try:
+                    from .vals import Adt as _A
+                    def term_(v_):
+                        if isinstance(v_, _A):
+                            return z3.BitVecVal(v_.variant or 0, 64) if not v_.items else None
+                        if hasattr(v_, 'disc'):
+                            return v_.disc if not isinstance(v_.disc, int) else z3.BitVecVal(v_.disc, 64)
+                        if isinstance(v_, BV):
+                            return v_.v if not isinstance(v_.v, int) else z3.BitVecVal(v_.v, 64)
+                        if isinstance(v_, bool):
+                            return z3.BoolVal(v_)
+                        if isinstance(v_, z3.ExprRef):
+                            return v_
+                        return None
+                    ta, tb = term_(va), term_(vb)
+                    if ta is None or tb is None:
+                        diff = None
+                    else:
+                        if ta.sort() != tb.sort():
+                            diff = 'sorts'
+                        else:
+                            eq.add(ta != tb)
+                            diff = eq.check() == z3.sat
+                    pa = b_or(*[r.cond() for r in summ if r.kind == 'panic'])
+                    pb = b_or(*[r.cond() for r in fresh if r.kind == 'panic'])
+                    if diff is not True:
+                        e2 = z3.Solver()
+                        for ax in self.uni.axioms:
+                            e2.add(ax)
+                        e2.add(z3bool(pa) != z3bool(pb))
+                        if e2.check() == z3.sat:
+                            diff = True
+                except Exception as e:
+                    diff = 'n/a %r' % (e,)
+                if diff is True:
+                    with open(os.environ['VERIF_DEBUG_SUMMARY'], 'a') as fh:
+                        fh.write('MISMATCH %s key=%r\n memo=%r\n fresh=%r\n args=%r\n\n' % (fn.name, key, a, b, args))
         # events recorded inside the summary are replayed conditionally
         panics = [r for r in summ if r.kind == 'panic']
         rets = [r for r in summ if r.kind == 'return']
